@@ -1517,6 +1517,8 @@ class ClientRequest(ClientRequestBase):
         protocol = conn.protocol
         assert protocol is not None
         transport = protocol.transport
+        # The writer counts the declared length down as the body is written.
+        writer.length = content_length
         try:
             await self._body.write_with_length(writer, content_length)
         except OSError as underlying_exc:
@@ -1551,6 +1553,10 @@ class ClientRequest(ClientRequestBase):
                 underlying_exc,
             )
         else:
+            if writer.length:
+                # The body was shorter than the declared Content-Length: the
+                # peer takes whatever comes next for the rest of this request.
+                protocol.force_close()
             # Successfully wrote the body, signal EOF and start response timeout
             await writer.write_eof()
             protocol.start_timeout()
